@@ -139,10 +139,11 @@ def check_output_defined(ctx, F):
             for p in sym_paths(F, fid, 1):
                 ctx.paths += 1
                 for ev in p:
-                    if ev[0] == "write" and (ev[1].get("op") or "=") != "=":
+                    # read-modify-write: a compound assignment, or `x = f(x)` (the stored value mentions the place it is stored to)
+                    if ev[0] == "write" and ((ev[1].get("op") or "=") != "=" or (ev[2] and ev[3] and ev[2] in ev[3])):
                         for r in refs:
                             if ev[2].startswith("this.%s." % r) or ev[2].startswith("this.%s[" % r):
-                                rmw.setdefault(r, set()).add("%s: %s %s" % (b["name"], ev[2][:60], ev[1].get("op")))
+                                rmw.setdefault(r, set()).add("%s: %s %s" % (b["name"], ev[2][:60], ev[1].get("op") if (ev[1].get("op") or "=") != "=" else "= f(self)"))
         for r, sites in sorted(rmw.items()):
             name = t.get("tmpl") or t["name"]
             site = "%s::%s" % (name, r)
